@@ -7,7 +7,7 @@ def sh(cmd, cwd=None, timeout=3600):
     r=subprocess.run(cmd, shell=True, cwd=cwd, capture_output=True, text=True, timeout=timeout)
     return r.returncode, r.stdout+r.stderr
 FIX={ # commit -> properties whose checks must alarm
- "f47e511":["C04"], "b900657":["C13"], "d0abb96":["C10"], "2a4f943":["C10"], "2a38aaa":["C01"], "a55984e":["C16","C09"],
+ "f47e511":["C04"], "b900657":["C13"], "d0abb96":["C10"], "2a4f943":["C10"], "2a38aaa":["C01"], "a55984e":["C16"],
  "282cb9d":["C02"], "089d440":["C08"], "dddc233":["C12"], "ab825ec":["C15"], "78e2e7e":["C17"], "15f27c4":["C17"],
  "9547e31":["C17"], "c9d48a9":["C06"],
 }
